@@ -69,6 +69,10 @@ namespace
     struct NAccum { static constexpr auto name = "c12_accum"; static void eval(In<"ts", TS<Int>> ts, Out<TSS<Int>> out) { (void)out.add(ts.value()); } };
     struct NSingle { static constexpr auto name = "c12_single"; static void eval(In<"ts", TS<Int>> ts, Out<TSS<Int>> out) { out.clear(); (void)out.add(ts.value() + 100); } };
 
+    // a terminal that keeps its running total in ITS OWN OUTPUT (reads it back before writing): a fresh instance starts from nothing
+    struct NOwnAcc { static constexpr auto name = "c12_own_acc"; static void eval(In<"ts", TS<Int>> ts, Out<TS<Int>> out) { out.set(out.valid() ? Int{out.value().template checked_as<Int>() + ts.value()} : Int{ts.value()}); } };
+    struct BOwn1 { static constexpr auto name = "c12_b_own1"; static Port<TS<Int>> compose(Wiring &w, Port<TS<Int>> ts) { return wire<NOwnAcc>(w, ts); } };
+    struct BOwn2 { static constexpr auto name = "c12_b_own2"; static Port<TS<Int>> compose(Wiring &w, Port<TS<Int>> ts) { return wire<NOwnAcc>(w, wire<NDouble>(w, ts)); } };
     struct BCounter { static constexpr auto name = "c12_b_counter"; static Port<TS<Int>> compose(Wiring &w, Port<TS<Int>> ts) { return wire<NCounter>(w, ts); } };
     struct BCounterD { static constexpr auto name = "c12_b_counter_default"; static Port<TS<Int>> compose(Wiring &w, Port<TS<Int>> ts) { return wire<NCounter>(w, wire<NDouble>(w, ts)); } };
     struct BDouble { static constexpr auto name = "c12_b_double"; static Port<TS<Int>> compose(Wiring &w, Port<TS<Int>> ts) { return wire<NDouble>(w, ts); } };
@@ -78,7 +82,7 @@ namespace
     struct BSingle { static constexpr auto name = "c12_b_single"; static Port<TSS<Int>> compose(Wiring &w, Port<TS<Int>> ts) { return wire<NSingle>(w, ts); } };
 
     // table id -> (key 1 branch, key 2 branch, default branch)
-    enum Br { COUNTER, COUNTERD, DOUBLE, TIMER, KEY, ACCUM, SINGLE, NONE };
+    enum Br { COUNTER, COUNTERD, DOUBLE, TIMER, KEY, ACCUM, SINGLE, OWN1, OWN2, NONE };
     struct Table { Br k1, k2, dflt; bool tss; };
     Table table_of(char id, bool with_default)
     {
@@ -88,6 +92,7 @@ namespace
             case 'b': return {TIMER, COUNTER, with_default ? TIMER : NONE, false};
             case 'c': return {KEY, COUNTER, with_default ? KEY : NONE, false};
             case 's': return {ACCUM, SINGLE, with_default ? ACCUM : NONE, true};
+            case 'o': return {OWN1, OWN2, with_default ? OWN1 : NONE, false};
         }
         throw verif::HarnessError("bad table");
     }
@@ -96,7 +101,7 @@ namespace
         switch (b)
         {
             case COUNTER: return fn<BCounter>(); case COUNTERD: return fn<BCounterD>(); case DOUBLE: return fn<BDouble>(); case TIMER: return fn<BTimer>();
-            case KEY: return fn<BKey>(); case ACCUM: return fn<BAccum>(); case SINGLE: return fn<BSingle>(); case NONE: break;
+            case KEY: return fn<BKey>(); case ACCUM: return fn<BAccum>(); case SINGLE: return fn<BSingle>(); case OWN1: return fn<BOwn1>(); case OWN2: return fn<BOwn2>(); case NONE: break;
         }
         throw verif::HarnessError("no branch");
     }
@@ -129,6 +134,8 @@ namespace
                     case DOUBLE: o = wire<NDouble>(w, ts); break;
                     case TIMER: o = wire<NTimer>(w, ts); break;
                     case KEY: o = wire<NKey>(w, wire<TsWriter>(w, Int{0}), ts); break;
+                    case OWN1: o = wire<NOwnAcc>(w, ts); break;
+                    case OWN2: o = wire<NOwnAcc>(w, wire<NDouble>(w, ts)); break;
                     default: throw verif::HarnessError("bad alone branch");
                 }
                 wire<EveryProbe<TS<Int>>>(w, o);
@@ -144,7 +151,7 @@ namespace
         return run.samples;
     }
 
-    struct Outcome { std::optional<std::string> violation; std::string sig; bool nontrivial{false}; std::uint64_t ticks{0}; };
+    struct Outcome { std::optional<std::string> violation; std::string sig; bool nontrivial{false}; std::uint64_t ticks{0}; std::string sig_class; };
 
     // ---- collection (TSS) input: branches that fold the input's DELTA must be handed the whole current set when they are selected -------------
     struct SetWriter
@@ -616,6 +623,30 @@ namespace
         }
         out.sig = cfg + "#" + sig.str();
         out.nontrivial = lives.size() >= 3;
+        if (out.violation && cfg[0] == 'o')
+        {
+            // classification of the recorded finding: the scalar switch output is shared by all branches and is not reset at a switch, so a
+            // terminal that reads its own output starts from the PREVIOUS branch's last value. Verified exactly: in every cycle the output
+            // equals (branch alone) + (the output value standing at the end of the previous life), ticks where the alone run ticks.
+            bool exact = true; long carry = 0, last_model = 0; bool any_model = false;
+            std::size_t li = 0;
+            for (long c = 0; c < end && exact; ++c)
+            {
+                if (life_start[static_cast<std::size_t>(c)]) { carry = any_model ? last_model : 0; ++li; }
+                const Sample &s = run.samples[static_cast<std::size_t>(c)];
+                const auto &wv = want_value[static_cast<std::size_t>(c)];
+                if (!in_life[static_cast<std::size_t>(c)]) { exact = !s.valid && !s.modified; continue; }
+                if (wv.has_value())
+                {
+                    const long model = std::stol(*wv) + carry;
+                    last_model = model; any_model = true;
+                    if (!s.valid || s.value != std::to_string(model)) exact = false;
+                    if (want_tick[static_cast<std::size_t>(c)] != s.modified && !life_start[static_cast<std::size_t>(c)]) exact = false;
+                }
+                else if (s.valid && !(any_model && s.value == std::to_string(last_model))) exact = false;
+            }
+            if (exact) out.sig_class = "own-output accumulator: the newly selected branch reads the previous branch's last value from the shared scalar switch output";
+        }
         return out;
     }
 }  // namespace
@@ -707,7 +738,7 @@ void verif_enumerate(verif::Ctx &ctx)
                 }
             }
     }
-    for (const char *cfg : {"a--", "ad-", "a-r", "adr", "b--", "bd-", "bdr", "c--", "cd-", "cdr", "s--", "sd-", "s-r", "sdr"})
+    for (const char *cfg : {"a--", "ad-", "a-r", "adr", "b--", "bd-", "bdr", "c--", "cd-", "cdr", "s--", "sd-", "s-r", "sdr", "o--", "od-", "odr"})
         for (auto &ks : kscripts)
             for (auto &is : iscripts)
             {
@@ -723,7 +754,7 @@ void verif_enumerate(verif::Ctx &ctx)
                 {
                     Outcome o2 = run_desc(desc);
                     if (!o2.violation || *o2.violation != *o.violation) throw verif::HarnessError("case not reproducible: " + desc);
-                    ctx.violation(desc, *o.violation, std::string{cfg} + ": " + o.violation->substr(o.violation->find(':') + 2, 44));
+                    ctx.violation(desc, *o.violation, !o.sig_class.empty() ? o.sig_class : std::string{cfg} + ": " + o.violation->substr(o.violation->find(':') + 2, 44));
                 }
                 else if (ctx.evaluations % 19997 == 1) ctx.sample("cases", desc);
             }
